@@ -221,19 +221,62 @@ func interleaveLoaders(scheds [][]string, outDir, repo string, rng *rand.Rand) e
 			files = append(files, file{filepath.Base(n), l, d})
 		}
 	}
+	// families of small files that differ from each other in every field the loaders report
+	// (dimensions, profile): a value that leaks from one load into another is visible
+	fams := map[string][]file{}
 	for i := 0; i < 3; i++ {
-		prof := gen.SimpleProfile(3000+977*i, fmt.Sprint("interleave ", i), i%2 == 0, uint32(i))
-		for _, sd := range containerSeeds(prof) {
-			files = append(files, file{fmt.Sprint(sd.Name, "-", i), sd.Struct, sd.Data})
-		}
+		w, h := uint32(7+100*i), uint32(9+50*i)
+		prof := gen.SimpleProfile(700+333*i, fmt.Sprint("interleave ", i), i%2 == 0, uint32(i))
+		parts := gen.SplitICC(prof, 2)
+		vp8, _ := gen.BuildWebP([]gen.WChunk{gen.VP8(uint16(w), uint16(h), byte(i), byte(3-i), gen.VP8Body(40))}, -1)
+		vp8l, _ := gen.BuildWebP([]gen.WChunk{gen.VP8L(w, h, i%2 == 0, gen.Payload(30, 1, false))}, -1)
+		vp8x, _ := gen.BuildWebP([]gen.WChunk{gen.VP8X(gen.VP8XICC, w, h), gen.WC("ICCP", prof), gen.VP8(5, 6, 0, 0, gen.VP8Body(40))}, -1)
+		png, _ := gen.BuildPNG([]gen.PNGChunk{gen.IHDR(w, h, 8, 6, 0), gen.ICCP("p", 0, gen.Deflate(prof, 6)), gen.Chunk("IDAT", gen.Payload(80, 2, false)), gen.Chunk("IEND", nil)})
+		jpg, _ := gen.BuildJPEG([]gen.JSeg{gen.SOI(), gen.JFIF(), gen.ICCSeg(1, 2, parts[0]), gen.ICCSeg(2, 2, parts[1]), gen.DQT(0),
+			gen.SOF(0xC0, 8, uint16(h), uint16(w), gen.StdComps(3, 0x22)), gen.DHT(0, 0), gen.SOS(3, gen.EntropyBytes(60, 5)), gen.EOI()})
+		fams["vp8"] = append(fams["vp8"], file{fmt.Sprint("vp8-", i), "webp", vp8})
+		fams["vp8l"] = append(fams["vp8l"], file{fmt.Sprint("vp8l-", i), "webp", vp8l})
+		fams["vp8x"] = append(fams["vp8x"], file{fmt.Sprint("vp8x-", i), "webp", vp8x})
+		fams["png"] = append(fams["png"], file{fmt.Sprint("png-", i), "png", png})
+		fams["jpeg"] = append(fams["jpeg"], file{fmt.Sprint("jpeg-", i), "jpeg", jpg})
 	}
+	var pairs [][2]file
+	for _, fn := range []string{"vp8", "vp8l", "vp8x", "png", "jpeg"} {
+		f := fams[fn]
+		pairs = append(pairs, [2]file{f[0], f[1]}, [2]file{f[1], f[2]}, [2]file{f[2], f[0]})
+		files = append(files, f...)
+	}
+	pairs = append(pairs, [2]file{fams["vp8"][0], fams["vp8l"][1]}, [2]file{fams["vp8l"][2], fams["vp8"][1]})
 	solo := func(f file, loader string) string {
 		o := obs.Run(loader, obs.NewSource(f.data, -1, nil, obs.Full), false, false)
 		return o.Outcome()
 	}
 	nfollowed := 0
-	for si, sc := range scheds {
-		fa, fb := files[rng.Intn(len(files))], files[rng.Intn(len(files))]
+	// every schedule of the first block (one copy of TLC's list) on every same-family pair;
+	// further copies of the list on seeded pairs of any files
+	nper := 70
+	if len(scheds) < nper {
+		nper = len(scheds)
+	}
+	type run struct {
+		sc     []string
+		fa, fb file
+	}
+	var runs []run
+	for pi, pr := range pairs {
+		for k := 0; k < nper; k++ {
+			if pi%2 == 0 {
+				runs = append(runs, run{scheds[k], pr[0], pr[1]})
+			} else {
+				runs = append(runs, run{scheds[k], pr[1], pr[0]})
+			}
+		}
+	}
+	for _, sc := range scheds {
+		runs = append(runs, run{sc, files[rng.Intn(len(files))], files[rng.Intn(len(files))]})
+	}
+	for si, rn := range runs {
+		sc, fa, fb := rn.sc, rn.fa, rn.fb
 		la, lb := fa.loader, fb.loader
 		if si%3 == 0 {
 			la, lb = "auto", "auto"
@@ -267,6 +310,6 @@ func interleaveLoaders(scheds [][]string, outDir, repo string, rng *rand.Rand) e
 		sink.put(map[string]interface{}{"kind": "iso", "sched": name, "file": fa.name, "loader": la, "other": fb.name, "got": oa.Outcome(), "solo": solo(fa, la)})
 		sink.put(map[string]interface{}{"kind": "iso", "sched": name, "file": fb.name, "loader": lb, "other": fa.name, "got": ob.Outcome(), "solo": solo(fb, lb)})
 	}
-	fmt.Printf("{\"schedules\":%d,\"followed\":%d,\"events\":%d}\n", len(scheds), nfollowed, sink.n)
+	fmt.Printf("{\"schedules\":%d,\"followed\":%d,\"events\":%d}\n", len(runs), nfollowed, sink.n)
 	return nil
 }
